@@ -25,8 +25,8 @@ func (f Format) String() string {
 
 const (
 	ASCII              Format = "ascii"
-	BinaryBigEndian    Format = "binary_little_endian"
-	BinaryLittleEndian Format = "binary_big_endian"
+	BinaryBigEndian    Format = "binary_big_endian"
+	BinaryLittleEndian Format = "binary_little_endian"
 )
 
 const VertexElementName = "vertex"
